@@ -583,6 +583,24 @@ fn rand_token(rng: &mut Rng, max: usize) -> String {
     s
 }
 
+/// a header value: a token, one time in five with a character inside it that is legal in a field value but easily taken for
+/// dirt - HTAB (field-content may contain it), DEL and C1 controls (obs-text) - never first or last (DESIGN 5a).  Added after a
+/// seeded "response-splitting defence" that strips every char::is_control() from values on serialisation was missed (round 8).
+fn rand_value(rng: &mut Rng, max: usize) -> String {
+    let s = rand_token(rng, max);
+    if s.chars().count() < 2 || !rng.chance(1, 5) {
+        return s;
+    }
+    let c = *rng.pick(&['\t', '\u{7f}', '\u{80}', '\u{85}', '\u{9f}']);
+    let at = rng.range(1, s.chars().count() - 1);
+    let mut out = String::new();
+    for (i, ch) in s.chars().enumerate() {
+        if i == at { out.push(c); }
+        out.push(ch);
+    }
+    out
+}
+
 const MAX_AGES: [u64; 14] = [0, 1, 3600, 31536000, (1 << 24) - 1, 1 << 24, (1 << 24) + 1, (1 << 25) + 1, i32::MAX as u64, 1 << 31,
     u32::MAX as u64, (1 << 32) + 1, (1 << 53) + 1, u64::MAX];
 
@@ -657,7 +675,7 @@ fn random(n: usize, maxbody: usize) {
                 }
             }
             if let Some(name) = forced_name(i) {
-                let value = rand_token(&mut rng, 24);
+                let value = rand_value(&mut rng, 24);
                 headers.push((name.clone(), value.clone()));
                 resp = resp.with_header(name.as_str(), value);
             }
@@ -687,7 +705,7 @@ fn random(n: usize, maxbody: usize) {
             let mut headers: Vec<(String, String)> = vec![];
             for _ in 0..nh {
                 let name = if rng.chance(1, 3) { "X-Dup" } else if rng.chance(1, 5) { "Set-Cookie" } else { *rng.pick(&NAMES) };
-                headers.push((name.to_string(), rand_token(&mut rng, 24)));
+                headers.push((name.to_string(), rand_value(&mut rng, 24)));
             }
             if let Some(name) = forced_name(i) {
                 let at = rng.below(headers.len() + 1);
